@@ -311,7 +311,9 @@ Inductive op :=
 | OGetattr
 | OGetxattr (a : string) (dlen : Z)
 | OListxattr (dlen : Z)
-| OState (digest : string) (size fetched : Z).   (* root only: walk the hidden state directory *)
+| OState (digest : string) (size fetched : Z)    (* root only: walk the hidden state directory *)
+| OReadlink                                     (* node.Readlink: length of the link name it returns *)
+| OFGetattr.                                    (* node.Open, then file.Getattr on the handle *)
 
 (* outputs are flattened to (numbers, strings) so that one comparison function serves all ops *)
 Definition obs := (list Z * list string)%type.
@@ -368,7 +370,8 @@ Definition step (c : cfg) (self : ent) (ch : children) (s : nstate) (o : op) : n
       let '(s', r) := lookup c ch s n in
       ((if rg then register s' n r else s'), enc_lookup c r)
   | OForget n => (forget s n, ([], []))
-  | OGetattr =>
+  | OReadlink => (s, ([a_linklen (e_attr self)], []))
+  | OGetattr | OFGetattr =>
       (s, (enc_opt_fattr (match ino_of (c_base c) (e_id self) with
                           | Some i => Some (entry_to_attr i (e_attr self)) | None => None end), []))
   | OGetxattr a dlen => let '(n, e, v) := getxattr c self ch a dlen in (s, ([n; e], [v]))
